@@ -793,3 +793,194 @@ class CShapes:
             self.ev(s.value)
         elif isinstance(s, ast.Return):
             self.rejected = self.rejected
+
+
+# --------------------------------------------------------------------------------------------
+# symbolic integer sequences (monomials in the per-axis point counts) -- index-map strides
+# --------------------------------------------------------------------------------------------
+class SeqInterp:
+    """Evaluates small integer-sequence computations symbolically for a fixed dimensionality.
+
+    A scalar is a polynomial {monomial: coeff} over the symbols n0, n1, n2 (monomial = sorted tuple
+    of (symbol, exponent)); a sequence is a Python list of such polynomials.  Supported: the shape
+    sequence and constant slices of it, constants, + - *, np.empty/np.zeros/np.ones(k), element stores
+    with constant index, loops over range() with constant bounds (unrolled), np.cumprod, np.prod,
+    [::-1], np.append, np.array/list displays, np.dot(x, seq) (returned as ("dot", x, seq))."""
+
+    class Undecided(Exception):
+        pass
+
+    def __init__(self, ndim, shape_texts=("self.shape", "self._shape", "shape")):
+        self.ndim = ndim
+        self.env = {}
+        self.shape_texts = set(shape_texts)
+        self.ret = None
+
+    # polynomials
+    @staticmethod
+    def c(k):
+        return {(): k} if k else {}
+
+    @staticmethod
+    def sym(i):
+        return {((f"n{i}", 1),): 1}
+
+    @staticmethod
+    def add(p, q, sign=1):
+        out = dict(p)
+        for m, k in q.items():
+            out[m] = out.get(m, 0) + sign * k
+            if out[m] == 0:
+                del out[m]
+        return out
+
+    @staticmethod
+    def mul(p, q):
+        out = {}
+        for m1, k1 in p.items():
+            for m2, k2 in q.items():
+                d = dict(m1)
+                for a, e in m2:
+                    d[a] = d.get(a, 0) + e
+                m = tuple(sorted(d.items()))
+                out[m] = out.get(m, 0) + k1 * k2
+                if out[m] == 0:
+                    del out[m]
+        return out
+
+    def const_int(self, e):
+        v = self.ev(e)
+        if isinstance(v, dict) and all(m == () for m in v):
+            return v.get((), 0)
+        raise self.Undecided(f"not a constant integer: {norm(e)}")
+
+    def ev(self, e):
+        t = norm(e)
+        if t in self.shape_texts:
+            return [self.sym(i) for i in range(self.ndim)]
+        if t in ("self.ndim", "len(self.shape)", "len(shape)", "self.shape.size"):
+            return self.c(self.ndim)
+        if isinstance(e, ast.Constant) and isinstance(e.value, int):
+            return self.c(e.value)
+        if isinstance(e, ast.Name):
+            if e.id in self.env:
+                return self.env[e.id]
+            raise self.Undecided(f"unknown name {e.id}")
+        if isinstance(e, ast.UnaryOp) and isinstance(e.op, ast.USub):
+            v = self.ev(e.operand)
+            if isinstance(v, dict):
+                return {m: -k for m, k in v.items()}
+        if isinstance(e, ast.BinOp) and isinstance(e.op, (ast.Add, ast.Sub, ast.Mult)):
+            a, b = self.ev(e.left), self.ev(e.right)
+            if isinstance(a, dict) and isinstance(b, dict):
+                if isinstance(e.op, ast.Mult):
+                    return self.mul(a, b)
+                return self.add(a, b, 1 if isinstance(e.op, ast.Add) else -1)
+            raise self.Undecided(f"sequence arithmetic: {t}")
+        if isinstance(e, (ast.Tuple, ast.List)):
+            return [self.ev(x) for x in e.elts]
+        if isinstance(e, ast.Subscript):
+            v = self.ev(e.value)
+            if not isinstance(v, list):
+                raise self.Undecided(f"subscript of a non-sequence: {t}")
+            sl = e.slice
+            if isinstance(sl, ast.Slice):
+                lo = self.const_int(sl.lower) if sl.lower is not None else None
+                hi = self.const_int(sl.upper) if sl.upper is not None else None
+                st = self.const_int(sl.step) if sl.step is not None else None
+                return v[lo:hi:st]
+            i = self.const_int(sl)
+            try:
+                return v[i]
+            except IndexError:
+                raise self.Undecided(f"index {i} out of range in {t}") from None
+        if isinstance(e, ast.Call):
+            fn = norm(e.func)
+            if fn in ("np.empty", "np.zeros", "np.ones") and e.args:
+                k = self.const_int(e.args[0])
+                fill = self.c(1) if fn == "np.ones" else ("uninit" if fn == "np.empty" else self.c(0))
+                return [fill for _ in range(k)]
+            if fn in ("np.asarray", "np.array", "list", "tuple") and e.args:
+                return self.ev(e.args[0])
+            if fn == "np.cumprod" and e.args:
+                v = self.ev(e.args[0])
+                out, acc = [], self.c(1)
+                for x in v:
+                    acc = self.mul(acc, x)
+                    out.append(acc)
+                return out
+            if fn == "np.prod" and e.args:
+                v = self.ev(e.args[0])
+                acc = self.c(1)
+                for x in v:
+                    acc = self.mul(acc, x)
+                return acc
+            if fn == "np.append" and len(e.args) == 2:
+                a, b = self.ev(e.args[0]), self.ev(e.args[1])
+                return list(a) + (list(b) if isinstance(b, list) else [b])
+            if fn in ("np.concatenate", "np.hstack") and e.args and isinstance(e.args[0], (ast.Tuple, ast.List)):
+                out = []
+                for x in e.args[0].elts:
+                    v = self.ev(x)
+                    out += v if isinstance(v, list) else [v]
+                return out
+            if fn == "np.dot" and len(e.args) == 2:
+                return ("dot", norm(e.args[0]), self.ev(e.args[1]))
+        raise self.Undecided(f"unsupported expression `{t[:60]}`")
+
+    def run(self, body):
+        for s in body:
+            if self.ret is not None:
+                return
+            if isinstance(s, ast.Expr) and isinstance(s.value, ast.Constant):
+                continue
+            if isinstance(s, ast.Assign) and len(s.targets) == 1:
+                t = s.targets[0]
+                if isinstance(t, ast.Name):
+                    try:
+                        self.env[t.id] = self.ev(s.value)
+                    except self.Undecided:
+                        self.env.pop(t.id, None)
+                elif isinstance(t, ast.Subscript) and isinstance(t.value, ast.Name) and t.value.id in self.env:
+                    seq = list(self.env[t.value.id])
+                    seq[self.const_int(t.slice)] = self.ev(s.value)
+                    self.env[t.value.id] = seq
+                elif isinstance(t, ast.Tuple) and isinstance(s.value, ast.Tuple) and len(t.elts) == len(s.value.elts):
+                    for a, b in zip(t.elts, s.value.elts):
+                        if isinstance(a, ast.Name):
+                            try:
+                                self.env[a.id] = self.ev(b)
+                            except self.Undecided:
+                                self.env.pop(a.id, None)
+            elif isinstance(s, ast.For) and isinstance(s.iter, ast.Call) and norm(s.iter.func) == "range" \
+                    and isinstance(s.target, ast.Name):
+                bounds = [self.const_int(a) for a in s.iter.args]
+                for i in range(*bounds):
+                    self.env[s.target.id] = self.c(i)
+                    self.run(s.body)
+            elif isinstance(s, ast.If):
+                t = norm(s.test)
+                known = {}
+                import re
+                m = re.fullmatch(r"(self\.ndim|len\(self\.shape\)|len\(shape\)) (==|!=|<|<=|>|>=) (\d)", t)
+                if m:
+                    known[t] = eval(f"{self.ndim} {m.group(2)} {m.group(3)}")  # noqa: S307 - two literal integers
+                if t in known:
+                    self.run(s.body if known[t] else s.orelse)
+                elif all(isinstance(x, ast.Raise) for x in s.body) and not s.orelse:
+                    continue
+                else:
+                    raise self.Undecided(f"unknown guard `{t}`")
+            elif isinstance(s, ast.Return):
+                self.ret = s.value
+                return
+
+
+def show_mono_poly(p):
+    if not p:
+        return "0"
+    terms = []
+    for m, k in sorted(p.items()):
+        mon = "*".join(a if e == 1 else f"{a}^{e}" for a, e in m)
+        terms.append((f"{k}*" if k != 1 and mon else (str(k) if not mon else "")) + mon)
+    return " + ".join(terms)
